@@ -18,7 +18,9 @@
 (* dataset.to_json_string is  W1: mode := no; serialise the dataset;        *)
 (* W2: mode := allow.                                                        *)
 (*                                                                         *)
-(* shape  = [members |-> seq of [kind, standoff, changed]]                  *)
+(* A stand-off resource kept as plain text (fmt "txt") is flushed without    *)
+(* touching the mode:  rm, rc, (write the file), wu.                         *)
+(* shape  = [members |-> seq of [kind, standoff, changed, fmt]]             *)
 (* ops[t] = [op |-> "store"] or [op |-> "set", i |-> member index]           *)
 EXTENDS StamBase
 
@@ -28,7 +30,18 @@ CONSTANT SharedMode
 Frame(mi, ph) == <<mi, ph>>
 
 NThreads == 3
-InitGlobal(shape) == [mode |-> [t \in 1..NThreads |-> "allow"], changed |-> [i \in DOMAIN shape.members |-> shape.members[i].changed]]
+\* file[m]: abstract content of the stand-off file of member m
+\*   "saved" (written before the readers started), "missing", "empty" (just truncated), "full" (the member's content),
+\*   "stub" (only an "@include" of the file itself), "corrupt" (a shorter document written over a longer one)
+InitGlobal(shape) == [mode |-> [t \in 1..NThreads |-> "allow"], changed |-> [i \in DOMAIN shape.members |-> shape.members[i].changed],
+                      file |-> [i \in DOMAIN shape.members |->
+                                   IF ~shape.members[i].standoff THEN "none"
+                                   ELSE IF shape.members[i].kind = "res" /\ shape.members[i].changed THEN "missing" ELSE "saved"]]
+
+\* a JSON stand-off file is truncated when it is opened and written (from offset 0) when the serialisation has finished
+WriteOver(existing, form) ==
+    IF form = "inline" THEN "full"
+    ELSE IF existing \in {"full", "corrupt", "saved"} THEN "corrupt" ELSE "stub"
 
 \* skip the members that are not stand-off (they are written inline without touching shared state)
 RECURSIVE Advance(_, _)
@@ -48,13 +61,13 @@ SetTop(th, ph) == [th EXCEPT !.stk[Len(th.stk)] = Frame(Top(th)[1], ph)]
 Pop(th) == [th EXCEPT !.stk = SubSeq(@, 1, Len(@) - 1)]
 Tag(th, t) == [th EXCEPT !.tags = Append(@, t)]
 
-\* a member has been serialised in the given form: return to whoever asked for it
-Return(shape, th, form) ==
+\* a member has been serialised in the given form: return to whoever asked for it; [g, th]
+Return(shape, g, th, form) ==
     LET p == Pop(th)
     IN IF p.stk = <<>>
-       THEN Advance(shape, [p EXCEPT !.forms = Append(@, form)])               \* a member of the store
-       ELSE IF Top(p)[2] = "W2" THEN [p EXCEPT !.forms = <<form>>]              \* the dataset of dataset.to_json_string
-       ELSE p                                                                   \* content of a stand-off file (not observed)
+       THEN [g |-> g, th |-> Advance(shape, [p EXCEPT !.forms = Append(@, form)])]               \* a member of the store
+       ELSE IF Top(p)[2] = "W2" THEN [g |-> g, th |-> [p EXCEPT !.forms = <<form>>]]              \* the dataset of dataset.to_json_string
+       ELSE [g |-> [g EXCEPT !.file[Top(p)[1]] = WriteOver(@, form)], th |-> p]                   \* content of a stand-off file: written now
 
 \* one atomic step of thread th: the access at its yield point plus the code up to the next yield point; [g, th]
 CStep(shape, g, th, me) ==
@@ -62,12 +75,15 @@ CStep(shape, g, th, me) ==
         ph == Top(th)[2]
         mode == g.mode[me]
         SetMode(v) == [g EXCEPT !.mode = IF SharedMode THEN [t \in 1..NThreads |-> v] ELSE [@ EXCEPT ![me] = v]]
-    IN CASE ph = "rm" -> [g |-> g, th |-> IF mode = "allow" THEN SetTop(Tag(th, "read_mode"), "rc") ELSE Return(shape, Tag(th, "read_mode"), "inline")]
-         [] ph = "rc" -> [g |-> g, th |-> IF g.changed[mi] THEN SetTop(Tag(th, "read_changed"), "w1") ELSE Return(shape, Tag(th, "read_changed"), "include")]
-         [] ph = "w1" -> [g |-> SetMode("no"),
+    IN CASE ph = "rm" -> IF mode = "allow" THEN [g |-> g, th |-> SetTop(Tag(th, "read_mode"), "rc")] ELSE Return(shape, g, Tag(th, "read_mode"), "inline")
+         [] ph = "rc" -> IF ~g.changed[mi] THEN Return(shape, g, Tag(th, "read_changed"), "include")
+                         ELSE IF shape.members[mi].fmt = "txt"
+                              THEN [g |-> [g EXCEPT !.file[mi] = "full"], th |-> SetTop(Tag(th, "read_changed"), "wu")]     \* the text file is written
+                              ELSE [g |-> g, th |-> SetTop(Tag(th, "read_changed"), "w1")]
+         [] ph = "w1" -> [g |-> [SetMode("no") EXCEPT !.file[mi] = "empty"],                                               \* the file is opened
                           th |-> LET t1 == SetTop(Tag(th, "write_mode"), "w2") IN [t1 EXCEPT !.stk = Append(@, Frame(mi, "rm"))]]
          [] ph = "w2" -> [g |-> SetMode("allow"), th |-> SetTop(Tag(th, "write_mode"), "wu")]
-         [] ph = "wu" -> [g |-> [g EXCEPT !.changed[mi] = FALSE], th |-> Return(shape, Tag(th, "write_unchanged"), "include")]
+         [] ph = "wu" -> Return(shape, [g EXCEPT !.changed[mi] = FALSE], Tag(th, "write_unchanged"), "include")
          [] ph = "W1" -> [g |-> SetMode("no"),
                           th |-> LET t1 == SetTop(Tag(th, "write_mode"), "W2")
                                  IN IF shape.members[mi].standoff THEN [t1 EXCEPT !.stk = Append(@, Frame(mi, "rm"))]
@@ -81,20 +97,49 @@ RunSchedule(shape, ops, schedule) ==
                      ELSE LET r == CStep(shape, s.g, s.ths[t], t) IN [g |-> r.g, ths |-> [s.ths EXCEPT ![t] = r.th]]
     IN FoldL(one, init, schedule)
 
-\* a thread running alone on the initial store
+\* a thread running alone
 RECURSIVE RunAlone(_, _, _)
-RunAlone(shape, g, th) == IF th.fin THEN th ELSE LET r == CStep(shape, g, th, 1) IN RunAlone(shape, r.g, r.th)
-Alone(shape, op) == RunAlone(shape, InitGlobal(shape), InitThread(shape, op))
+RunAlone(shape, g, th) == IF th.fin THEN [g |-> g, th |-> th] ELSE LET r == CStep(shape, g, th, 1) IN RunAlone(shape, r.g, r.th)
+Alone(shape, op) == RunAlone(shape, InitGlobal(shape), InitThread(shape, op)).th
+\* the readers one after the other
+RunSequential(shape, ops) == FoldL(LAMBDA g, t : RunAlone(shape, g, InitThread(shape, ops[t])).g, InitGlobal(shape), [t \in DOMAIN ops |-> t])
 
 Observed(th) == [tags |-> th.tags, forms |-> th.forms]
+\* what is seen of a stand-off file afterwards
+FileSeen(f) == IF f \in {"saved", "full"} THEN "complete" ELSE IF f = "stub" THEN "selfinclude" ELSE f
+FilesExpected(shape, g) == [i \in DOMAIN shape.members |-> FileSeen(g.file[i])]
 
-\* C20: every thread obtains the result it would obtain running alone
+\* C20: every thread obtains the result it would obtain running alone, and the stand-off files end up as the readers,
+\* taking turns, would have left them
 SequentialResults(shape, ops, final) ==
-    \A t \in DOMAIN ops : final.ths[t].fin => final.ths[t].forms = Alone(shape, ops[t]).forms
+    /\ \A t \in DOMAIN ops : final.ths[t].fin => final.ths[t].forms = Alone(shape, ops[t]).forms
+    /\ (\A t \in DOMAIN ops : final.ths[t].fin) => FilesExpected(shape, final.g) = FilesExpected(shape, RunSequential(shape, ops))
 
-\* a ConcRun event: a = [shape, ops, schedule]; api = [threads: seq of [tags, forms]]
+\* a ConcRun event: a = [shape, ops, schedule]; api = [threads: seq of [tags, forms], files, leftovers]
 ConcExpected(a) ==
     LET f == RunSchedule(a.shape, a.ops, a.schedule) IN [t \in DOMAIN a.ops |-> Observed(f.ths[t])]
-ConcConforms(r) == r.outcome = "ok" /\ r.api.threads = ConcExpected(r.a)
+ConcFilesExpected(a) == LET f == RunSchedule(a.shape, a.ops, a.schedule) IN FilesExpected(a.shape, f.g)
+ConcConforms(r) == r.outcome = "ok" /\ r.api.threads = ConcExpected(r.a) /\ r.api.files = ConcFilesExpected(r.a) /\ r.api.leftovers = <<>>
 ConcSequential(r) == SequentialResults(r.a.shape, r.a.ops, RunSchedule(r.a.shape, r.a.ops, r.a.schedule))
+
+----------------------------------------------------------------------------
+(* Free-running readers (ConcFree): real threads released together, no scheduler. Only every thread's own sequence  *)
+(* of accesses and its output are observed; the interleaving is not.  The run conforms iff SOME interleaving of the *)
+(* model explains all of it (the schedule is the unlogged nondeterminism that TLC resolves).                        *)
+FreeSucc(shape, obs, s) ==
+    {n \in {LET r == CStep(shape, s.g, s.ths[t], t) IN [g |-> r.g, ths |-> [s.ths EXCEPT ![t] = r.th]] : t \in {u \in DOMAIN s.ths : ~s.ths[u].fin}} :
+        \A t \in DOMAIN n.ths : Len(n.ths[t].tags) <= Len(obs[t].tags) /\ n.ths[t].tags = SubSeq(obs[t].tags, 1, Len(n.ths[t].tags))}
+RECURSIVE FreeReach(_, _, _, _)
+FreeReach(shape, obs, frontier, seen) ==
+    IF frontier = {} THEN seen
+    ELSE LET nxt == (UNION {FreeSucc(shape, obs, s) : s \in frontier}) \ seen IN FreeReach(shape, obs, nxt, seen \cup nxt)
+FreeFinals(a, api) ==
+    LET init == [g |-> InitGlobal(a.shape), ths |-> [t \in DOMAIN a.ops |-> InitThread(a.shape, a.ops[t])]]
+    IN {s \in FreeReach(a.shape, api.threads, {init}, {init}) :
+          \* (file operations of free-running threads are not atomic with the accesses to the shared cells: the files are
+          \*  not matched against one interleaving; FreeSequential below states what they must be)
+          \A t \in DOMAIN a.ops : s.ths[t].fin /\ Observed(s.ths[t]) = api.threads[t]}
+FreeConforms(r) == r.outcome = "ok" /\ Len(r.api.threads) = Len(r.a.ops) /\ r.api.leftovers = <<>> /\ FreeFinals(r.a, r.api) # {}
+FreeSequential(r) == /\ \A t \in DOMAIN r.a.ops : r.api.threads[t].forms = Alone(r.a.shape, r.a.ops[t]).forms
+                     /\ r.api.files = FilesExpected(r.a.shape, RunSequential(r.a.shape, r.a.ops))
 =============================================================================
